@@ -2569,7 +2569,10 @@ pub fn run_world(cfg: &WorldCfg) {
     let mut w = ManuallyDrop::new(World::new(cfg));
     let r = catch(|| {
         for a in &cfg.warm {
-            w.apply(a);
+            // (a warm action that is not enabled on this path, e.g. no closure-built node exists, is skipped)
+            if w.enabled().contains(a) {
+                w.apply(a);
+            }
         }
         for _ in 0..cfg.len {
             if w.poisoned {
